@@ -508,6 +508,66 @@ fn layer2_mode_aliasing(rep: &Report, env: &Env, flags: &[RFlags]) {
     loc.flush(rep);
 }
 
+/// bundle-level totals: 1..3 spends whose amounts, created amounts and reserved fees are taken from
+/// the u64 boundary set, so that removed - added and the fee total cross 2^64 (128-bit sums in the rules)
+fn layer2_totals(rep: &Report, env: &Env, flags: &[RFlags]) {
+    let amounts: [u64; 5] = [0, 1, 1000, 1 << 63, u64::MAX];
+    let fees: [Option<u64>; 4] = [None, Some(1), Some(5000), Some(u64::MAX)];
+    let creates: [Option<u64>; 3] = [None, Some(1), Some(u64::MAX)];
+    let parents = [P1, P2, H1];
+    // one spend choice = (amount, fee, created amount)
+    let mut choices: Vec<(u64, Option<u64>, Option<u64>)> = Vec::new();
+    for a in amounts {
+        for f in fees {
+            for c in creates {
+                choices.push((a, f, c));
+            }
+        }
+    }
+    let mk = |k: usize, ch: &(u64, Option<u64>, Option<u64>)| {
+        let mut conds = Vec::new();
+        if let Some(f) = ch.1 {
+            conds.push(cond(52, &[Sx::Atom(enc_u64(f))]));
+        }
+        if let Some(c) = ch.2 {
+            conds.push(cond(51, &[Sx::atom(&PH2), Sx::Atom(enc_u64(c))]));
+        }
+        spend(&parents[k], &PH1, ch.0, Sx::list(&conds))
+    };
+    let max_spends = rep.tier.pick(2usize, 3);
+    let n = choices.len();
+    let mut lists: Vec<Vec<usize>> = Vec::new();
+    for i in 0..n {
+        lists.push(vec![i]);
+        for j in 0..n {
+            lists.push(vec![i, j]);
+        }
+    }
+    if max_spends >= 3 {
+        // triples: the third spend ranges over the fee-less, output-less choices and the extremes
+        let third: Vec<usize> = (0..n).filter(|i| matches!(choices[*i], (_, None, None) | (u64::MAX, Some(u64::MAX), _) | (u64::MAX, _, Some(u64::MAX)))).collect();
+        for i in 0..n {
+            for j in 0..n {
+                for k in &third {
+                    lists.push(vec![i, j, *k]);
+                }
+            }
+        }
+    }
+    rep.extra("layer2_totals_lists", json!(lists.len()));
+    lists.par_chunks(256).for_each(|chunk| {
+        let mut loc = Local::new();
+        for l in chunk {
+            let out = output(&l.iter().enumerate().map(|(k, i)| mk(k, &choices[*i])).collect::<Vec<_>>());
+            for f in flags {
+                case(rep, &mut loc, env, "L2s", &format!("{}-spends", l.len()), &out, *f);
+            }
+        }
+        loc.flush(rep);
+    });
+    rep.sample(json!({"layer": "2s", "shape": "spends of 2^64-1 and 1000 mojos, RESERVE_FEE 5000: removed - added = 2^64 + 999 >= 5000 must be accepted (128-bit totals)"}));
+}
+
 /// structured big cases: the 1024 announcement cap and the 6000 spend cap
 fn layer4(rep: &Report, env: &Env) {
     let mut loc = Local::new();
@@ -530,7 +590,7 @@ fn layer4(rep: &Report, env: &Env) {
 
 fn run(rep: &Report) {
     let env = drive::env();
-    rep.set_rule("generator outputs in four layers x flag subsets of {NO_UNKNOWN_CONDS, STRICT_ARGS_COUNT, COST_CONDITIONS} x {EmptyVisitor, MempoolVisitor} (signatures not validated): L1 = one condition: 52 opcode atoms x every argument list of length <= 2 (quick) / <= 3 (thorough) over 27 universal letters x {nil, 01} terminator; L1m = SEND/RECEIVE x all 64 modes + 6 malformed modes x 3 message sizes x type-correct commitment with every single off-type substitution, missing/extra argument; L1i = 13 integer conditions x 17 integer atoms x {no extra arg, extra, nil extra}, CREATE_COIN x 3 puzzle hashes x 17 amounts x 11 memo shapes x tail x terminator, 17 spend amount atoms; L2 = spend A with every ordered list of <= 2 of the interaction letters, alone or with B (child) / C (same puzzle hash) / D (double spend) carrying <= 1 letter (thorough: + every ordered triple over one representative letter per condition kind); L2x = a coin with parent id = puzzle hash messaging itself under every pair of source modes (mode bits are part of the commitment); L3 = structural defects at the 5 list positions; L4 = 1023/1024/1025 announcements, 5999/6000/6001 spends with LIMIT_SPENDS. distinct = distinct accepted reference summaries under the empty flag set.");
+    rep.set_rule("generator outputs in four layers x flag subsets of {NO_UNKNOWN_CONDS, STRICT_ARGS_COUNT, COST_CONDITIONS} x {EmptyVisitor, MempoolVisitor} (signatures not validated): L1 = one condition: 52 opcode atoms x every argument list of length <= 2 (quick) / <= 3 (thorough) over 27 universal letters x {nil, 01} terminator; L1m = SEND/RECEIVE x all 64 modes + 6 malformed modes x 3 message sizes x type-correct commitment with every single off-type substitution, missing/extra argument; L1i = 13 integer conditions x 17 integer atoms x {no extra arg, extra, nil extra}, CREATE_COIN x 3 puzzle hashes x 17 amounts x 11 memo shapes x tail x terminator, 17 spend amount atoms; L2 = spend A with every ordered list of <= 2 of the interaction letters, alone or with B (child) / C (same puzzle hash) / D (double spend) carrying <= 1 letter (thorough: + every ordered triple over one representative letter per condition kind); L2x = a coin with parent id = puzzle hash messaging itself under every pair of source modes (mode bits are part of the commitment); L2s = every list of 1..2 (thorough: 3) spends over amount {0,1,1000,2^63,2^64-1} x RESERVE_FEE {none,1,5000,2^64-1} x CREATE_COIN {none,1,2^64-1} (bundle totals crossing 2^64); L3 = structural defects at the 5 list positions; L4 = 1023/1024/1025 announcements, 5999/6000/6001 spends with LIMIT_SPENDS. distinct = distinct accepted reference summaries under the empty flag set.");
     rep.assume("reference model mc::refcond implements DESIGN.md Appendix A; valid public keys are exactly the harness's three keys (other 48-byte letters are the infinity encoding and an off-curve string, self-checked at start)");
     rep.assume("only accept/reject, the canonical summary and the condition cost are compared, never error codes");
     let flags = all_rflags(&[false, true], false);
@@ -546,6 +606,7 @@ fn run(rep: &Report) {
     rep.extra("layer2_flag_sets", json!(l2flags.iter().map(|f| rflags_name(*f)).collect::<Vec<_>>()));
     layer2(rep, &env, &l2flags);
     layer2_mode_aliasing(rep, &env, &flags);
+    layer2_totals(rep, &env, &l2flags);
     layer3(rep, &env, &flags);
     layer4(rep, &env);
 }
